@@ -276,10 +276,27 @@ def report_findings(ck, recs, runs, verdicts, fx):
             by_key.setdefault(key, (fam, []))[1].append(k)
         if "H3" in qs:
             by_key.setdefault(KEYS["H3"] % run["sc"], ("H3", []))[1].append(k)
+        # the live node stopped answering (twice: in the pool and alone with three times the patience) although the
+        # crash-free reference run of the scenario completed in the same process: no progress IS the symptom
+        stall = next((r for r in recs[run["start"]:run["end"]] if r["a"] == "Stall"), None)
+        if stall is not None:
+            where = re.sub(r"\(\d+\)", "", stall["k"])
+            by_key.setdefault("C13:no-progress:%s:%s-in-%s" % (run["sc"], where, stall["st"]), ("STALL", []))[1].append(k)
     for key, (fam, ks) in by_key.items():
         run = runs[ks[0]]
         end = recs[run["end"] - 1]
         v, files = strict_replay(ck, recs, run, fx, "strict_" + re.sub(r"\W+", "_", key)[:40])
+        if fam == "STALL":
+            st = next(r for r in recs[run["start"]:run["end"]] if r["a"] == "Stall")
+            obs = [(r["a"] + ":" + (r["w"] or r["k"] or r["h"])) for r in recs[run["start"]:run["end"]] if r["a"] != "Block"]
+            ck.violation(key, "the live node makes no progress: %s does not return (also not when the plan is re-run alone with "
+                              "three times the patience) while the crash-free reference run of scenario %s completed in the same "
+                              "process; %d run(s): %s; last durable state: log state %s, %d unresolved contract(s), closed=%s "
+                              "fully-closed=%s wiped=%s; last events: %s" % (
+                                  st["k"], run["sc"], len(ks), ", ".join(runs[k]["plan"] for k in ks[:8]), st["st"],
+                                  len(st["un"]), st["cl"], st["rd"], st.get("wp"), " ".join(obs[-8:])),
+                         files=files, text=v["cex"] or "")
+            continue
         if v["ok"]:
             raise Inconclusive("strict validation accepts run %s that the batch judged %s" % (run["plan"], key))
         what = WHAT.get(fam, "terminal outcome differs from the reference run and no named deviation explains it")
@@ -313,15 +330,16 @@ def negative_controls(ck, recs, runs, verdicts, fx):
         raise Inconclusive("negative control accepted: corrupted resolved flag")
     controls.append(dict(mutation="resolved flag flipped at line %d" % (i + 1), rejected_by=v["invariant"], at_line=v["line"]))
     # 2. a run that stops before the channel is marked resolved must fail the verdict
-    cut = [r for r in copy.deepcopy(one) if r.get("w") != "MarkResolved"]
-    for r in cut:
-        r["rd"] = 0
+    j = next(k for k, r in enumerate(one) if r.get("w") == "MarkResolved")
+    end = copy.deepcopy(one[j - 1])
+    end.update(a="End", w="", n=0, h="", k="", lbl="")
+    cut = copy.deepcopy(one[:j]) + [end]
     p = os.path.join(ck.out, "control_verdict.ndjson")
     core.write_ndjson(p, cut)
     v = ck.validate(SPEC, "ArbitratorTrace", "ArbitratorTraceStrict.cfg", p, constants=trace_consts(fx), name="control_verdict")
     if v["ok"] or "VerdictInv" not in (v["invariant"] or ""):
         raise Inconclusive("negative control: truncated run not rejected by VerdictInv (%s)" % v["invariant"])
-    controls.append(dict(mutation="final MarkChannelResolved removed", rejected_by=v["invariant"], at_line=v["line"]))
+    controls.append(dict(mutation="run truncated before MarkChanFullyClosed", rejected_by=v["invariant"], at_line=v["line"]))
     ck.cov["negative_controls"] = controls
 
 
@@ -356,7 +374,7 @@ def execute(ck, env, name, race=False):
                 st = collections.Counter()
                 for ln in open(prog):
                     k, _, p = ln.strip().partition(" ")
-                    st[p.strip()] += 1 if k == "start" else -1
+                    st[p.strip()] += {"start": 1, "done": -1}.get(k, 0)
                 inflight = [p for p, n in st.items() if n > 0]
             log_ = os.path.join(res["dir"], "go.out")
             ck.violation("C13:panic:%s" % pan[0],
